@@ -83,11 +83,11 @@ func (r *Range) M__getitem__(key Object) (Object, error) {
 		return computeRangeSlice(r, slice)
 	}
 
-	index, err := Index(key)
+	i, err := IndexInt(key)
 	if err != nil {
 		return nil, err
 	}
-	index = computeNegativeIndex(index, r.Length)
+	index := computeNegativeIndex(Int(i), r.Length)
 
 	if index < 0 || index >= r.Length {
 		return nil, ExceptionNewf(IndexError, "range object index out of range")
